@@ -265,6 +265,8 @@ fn main() {
             rep.max("max_in_flight_seen", seen.max_in_flight_seen);
             rep.add("obs_boundary_concurrency_checks", seen.boundary_concurrency_checks);
             rep.add("obs_stress_phases", seen.stress_phases);
+            rep.add("obs_pause_resume_while_saturated", seen.pause_resume_while_saturated);
+            rep.add("obs_releases_while_paused", seen.releases_while_paused);
         }
         "C01" => scenario_loop(
             &args,
